@@ -38,6 +38,46 @@ fix(
     ),
 )
 
+fix(
+    "C02c",
+    "fix: recognise a spiral-tainted value of an eternal variable read under another period",
+    (
+        SIM,
+        "            if Cache(variable_name, period) in self.invalidated_caches:\n",
+        "            # (An eternal variable has one stored value, whatever the period it\n"
+        "            # was marked or is read under.)\n"
+        "            if any(\n"
+        "                cache.variable == variable_name\n"
+        "                and (\n"
+        "                    cache.period == period\n"
+        "                    or variable.definition_period == periods.DateUnit.ETERNITY\n"
+        "                )\n"
+        "                for cache in self.invalidated_caches\n"
+        "            ):\n",
+    ),
+)
+
+fix(
+    "C12n",
+    "fix: refuse an input value outside the range of an integer variable instead of wrapping it around",
+    (
+        "openfisca_core/variables/variable.py",
+        "        try:\n            value = numpy.array([value], dtype=self.dtype)[0]\n",
+        "        try:\n"
+        "            if (\n"
+        "                numpy.issubdtype(self.dtype, numpy.integer)\n"
+        "                and isinstance(value, (int, float))\n"
+        "                and not isinstance(value, bool)\n"
+        "                and not numpy.iinfo(self.dtype).min\n"
+        "                <= value\n"
+        "                <= numpy.iinfo(self.dtype).max\n"
+        "            ):\n"
+        "                # numpy would silently wrap the value around.\n"
+        "                raise OverflowError\n"
+        "            value = numpy.array([value], dtype=self.dtype)[0]\n",
+    ),
+)
+
 TBS = "openfisca_core/taxbenefitsystems/tax_benefit_system.py"
 fix(
     "C07",
